@@ -15,6 +15,7 @@ RULE = (
     'distinct = distinct cell (all but seed); non-trivial iff the reference matrix is not constant (max-min > 1e-6) or the kernel is the constant '
     'kernel'
     '; pass 5: call variants (x2=None, explicit diag=False, keyword arguments, 1-d vector inputs); `views` relation = two different views of one tensor with equal shape and storage offset'
+    '; pass 6: operator nestings of sums and products evaluated along the SPEC tree; one-hot sequences longer than 256 stored as uint8 / bool / int8 / int64 / float32'
 )
 REQUIRED = ["kernel_value", "kernel_diag", "grad_kernel_value", "path:RBFCovariance.forward", "path:MaternCovariance.forward"]
 ASSUMPTIONS = [
